@@ -41,6 +41,9 @@ def entry_expression(rng, p_invalid):
 def gen_pool(rng, n, p_invalid=0.08):
     d = f"P{rng.randrange(10 ** 6)}"
     entries = [{"q": f"{d}-E{i:02d}", "x": entry_expression(rng, p_invalid)} for i in range(n)]
+    for e in entries:
+        if rng.random() < 0.12:
+            e["m"] = rng.choice(["", "", " ", "0"])  # the meaning is free text of the AHB; maus only demands a string
     return {"k": "P", "d": d, "entries": entries, "input": None}
 
 
@@ -126,7 +129,10 @@ async def check_pool(ctx, case):
         return
     # (the meanings attached to the offered qualifiers are passed through from the maus model; the property does not speak about them:
     #  counted, not demanded)
-    if all(result.possible_values[q] == "m-" + q for q in got_offered):
+    if any("m" in e for e in pool["entries"]):
+        ctx.count("pools_with_an_empty_or_odd_meaning")
+    own = {e["q"]: e.get("m", "m-" + e["q"]) for e in pool["entries"]}
+    if all(result.possible_values[q] == own[q] for q in got_offered):
         ctx.count("offered_with_their_own_meaning")
     if len(pool["entries"]) >= 2:
         ctx.nontrivial([pool, sorted(asg.items()), parent, via])
